@@ -27,7 +27,9 @@ def _run(pid):
     if pid == "C15":
         # "the observer is exited after all other notifications, also when the run fails / is interrupted" needs: when run returns or
         # raises -- also on KeyboardInterrupt in the calling thread -- no worker is alive and nothing is running any more
-        s = E2.inst("int_pair_w2", "pair", 2, 30, opts={"interrupt": True}, witnesses=("interrupted",))
+        # (interrupt positions: everything except the start/append window of the known finding C17:interrupt-between-thread-start-and-append,
+        #  which is C17's to report)
+        s = E2.inst("int_pair_w2", "pair", 2, 34, opts={"interrupt": True, "int_where": "not_startup"}, witnesses=("interrupted",))
         s["src"] = C.SRC
         s["bits"] = ["c07_thread_alive_at_return", "c07_inflight_at_return", "c07_running_after_return", "c07_start_after_return", "c07_deadlock",
                      "c17_interrupt_swallowed", "c17_interrupt_masked"]
